@@ -458,7 +458,22 @@ func (e *SpecEnv) objTerm(o types.Object, x ast.Expr) Term {
 func (vc *VC) globalVar(o *types.Var) Term {
 	name := "g$" + sanitize(o.Pkg().Name()+"."+o.Name())
 	t := vc.ts.apply(o.Type())
-	vc.declare(name, vc.u.SortOf(t))
+	if !vc.declSeen[name] {
+		vc.declare(name, vc.u.SortOf(t))
+		// type invariant of value-like globals (integers, strings, slices of those): lengths are non-negative, bytes are bytes
+		ok := false
+		switch tt := under(t).(type) {
+		case *types.Basic:
+			ok = true
+		case *types.Slice:
+			_, ok = under(tt.Elem()).(*types.Basic)
+		}
+		if ok {
+			if f := vc.u.WF(name, t, "alloc@0"); f != "true" {
+				vc.base = append(vc.base, f)
+			}
+		}
+	}
 	return vc.mk(name, t)
 }
 
